@@ -300,8 +300,12 @@ QString skeleton(const QDomElement &e)
 }
 
 int g_markerFd = -1;
+int g_evalAlarm = 0;   // seconds allowed per evaluation (hang oracle); 0 = only the per-seed alarm
 void marker(int si, const QString &codec, const QString &op)
 {
+    if (g_evalAlarm > 0) {
+        alarm(unsigned(g_evalAlarm));
+    }
     if (g_markerFd >= 0) {
         const QByteArray m = QByteArray::number(si) + "\t" + codec.toUtf8() + "\t" + op.toUtf8() + "\n";
         if (write(g_markerFd, m.constData(), size_t(m.size())) < 0) {
@@ -1137,6 +1141,7 @@ int main(int argc, char **argv)
     ctx.maxViolationsPerKey = 1;
     QString engine = ctx.opts.value(QStringLiteral("engine"), QStringLiteral("c01"));
     int only = -1;
+    QString onlyCodec, onlyOp;   // replay of a crash/hang of the stateless codec engines: only this evaluation is repeated
     const auto seeds = loadCorpus(ctx.opts.value(QStringLiteral("corpus"), QString::fromLocal8Bit(qgetenv("VERIF_CORPUS"))));
     const auto reg = registry();
 
@@ -1146,6 +1151,8 @@ int main(int argc, char **argv)
         if (eng.endsWith(QLatin1String("-crash"))) {
             // re-run the whole seed in a forked child through the normal loop below
             only = rc.value(QStringLiteral("seed")).toInt();
+            onlyCodec = rc.value(QStringLiteral("codec")).toString();
+            onlyOp = rc.value(QStringLiteral("op")).toString();
             ctx.replay = false;
             goto mainLoop;
         }
@@ -1217,6 +1224,7 @@ mainLoop:
         if (pid == 0) {
             close(pipefd[0]);
             alarm(ctx.thorough() ? 900 : 180);
+            g_evalAlarm = ctx.thorough() ? 120 : 30;   // one evaluation (or one client injection incl. a re-login) never takes that long
             EnumCtx child;
             child.tier = ctx.tier;
             child.maxViolationsPerKey = 1;
@@ -1325,6 +1333,9 @@ mainLoop:
                         }
                         for (const auto &c : reg) {
                             if (!c.admit(el)) {
+                                continue;
+                            }
+                            if (!onlyOp.isEmpty() && (c.name != onlyCodec || m.first != onlyOp)) {
                                 continue;
                             }
                             marker(si, c.name, m.first);
